@@ -153,11 +153,12 @@ int main(int argc, char **argv)
             tl_prod = -1;
         };
         std::vector<std::thread> ths;
-        if (mode == "logger" || mode == "mixed" || mode == "fatal") {
+        if (mode == "logger" || mode == "mixed" || mode == "fatal" || mode == "mixed+fatal") {
             Logger lg;
             build(lg, dup);
             lg.installMessageHandler();
-            const bool mixed = mode == "mixed", fatal = mode == "fatal";
+            // "mixed+fatal": both at once — odd producers call process() directly while producer 0 logs fatal-level messages
+            const bool mixed = mode == "mixed" || mode == "mixed+fatal", fatal = mode == "fatal" || mode == "mixed+fatal";
             for (int p = 0; p < n; p++)
                 ths.emplace_back(producer, p, [&lg, mixed, fatal](int p, int i) {
                     if (mixed && (p & 1)) {          // the public entry point of the same Logger
